@@ -31,7 +31,10 @@ REQUIRED = {
 
 
 def _c_atom(cond, in_tree_branch, in_leaf_branch):
-    t = text(cond).replace(" ", "")
+    return _c_atom_text(text(cond).replace(" ", ""), in_tree_branch, in_leaf_branch)
+
+
+def _c_atom_text(t, in_tree_branch, in_leaf_branch):
     scope = "tree" if in_tree_branch else "leaf" if in_leaf_branch else "self"
     if "||" in t:
         return "WEAKENED:" + t[:80]
@@ -47,7 +50,7 @@ def _c_atom(cond, in_tree_branch, in_leaf_branch):
         return "child-nonempty:" + scope
     if re.search(r"self->firstbucket==\(Bucket\*\)self->data\[0\]\.child", t):
         return "firstbucket-is-first-leaf"
-    if re.search(r"self->firstbucket==\(BTree\*\)child->firstbucket", t):
+    if re.search(r"self->firstbucket==(?:\(BTree\*\))?(?:child|self->data\[0\]\.child)->firstbucket", t):
         return "firstbucket-matches-first-subtree"
     if re.search(r"\(Bucket\*\)child->next==bucketafter", t):
         return "leaf-next-links"
@@ -56,51 +59,245 @@ def _c_atom(cond, in_tree_branch, in_leaf_branch):
     return "other:" + t[:60]
 
 
+_NEG = {"<": ">=", ">=": "<", ">": "<=", "<=": ">", "==": "!=", "!=": "=="}
+
+
+def _ctext(e, sub, neg=False):
+    """canonical text of a condition: locals / parameters replaced through
+    `sub` (name -> text), `neg` = the negation is wanted (comparisons flipped,
+    De Morgan over && / ||)"""
+    e0 = strip(e)
+    if e0 is None:
+        return ""
+    if e0.k == "UnaryOperator" and e0.v == "!":
+        return _ctext(e0.kids[0], sub, not neg)
+    if e0.k == "BinaryOperator" and e0.v in _NEG:
+        op = _NEG[e0.v] if neg else e0.v
+        return "(%s%s%s)" % (_ctext(e0.kids[0], sub), op, _ctext(e0.kids[1], sub))
+    if e0.k == "BinaryOperator" and e0.v in ("&&", "||"):
+        op = {"&&": "||", "||": "&&"}[e0.v] if neg else e0.v
+        return "(%s%s%s)" % (_ctext(e0.kids[0], sub, neg), op, _ctext(e0.kids[1], sub, neg))
+    if e0.k == "DeclRefExpr" and not isinstance(sub.get(e0.n, ""), str):
+        return _ctext(sub[e0.n], dict((k, v) for k, v in sub.items() if k != e0.n), neg)   # a flag: its definition
+    t = text(e).replace(" ", "")
+    for nm, rep in sub.items():
+        if isinstance(rep, str):
+            t = re.sub(r"(?<![\w>.])%s\b" % re.escape(nm), rep, t)
+    return ("!" + t) if neg else t
+
+
+def _exits(st):
+    """the statement leaves the function / jumps away on every path"""
+    x = st
+    while x is not None and x.k == "CompoundStmt" and x.kids:
+        x = x.kids[-1]
+    return x is not None and x.k in ("GotoStmt", "ReturnStmt")
+
+
 def c_atoms(tu):
+    """[(atom, line)] of the C checker.  An assertion is (a) a CHECK(cond, msg)
+    of the macro, (b) an `if` whose branch stores a string literal into the
+    variable that is reported as the AssertionError and leaves, (c) in a
+    helper whose result is stored into that variable, an `if` whose branch
+    returns a string literal.  For (b) / (c) the asserted condition is the
+    negation of the test; flags (`int bad = child->len < 1`) are replaced by
+    their definition and the helper's parameters by the call's arguments."""
     fn = tu.func("BTree_check_inner")
-    atoms = []
+    # the message variable
+    msgvar = None
+    for c in fn.walk():
+        if c.k == "CallExpr" and callee(c) == ("fn", "PyErr_SetString") and len(c.kids) >= 3:
+            a = strip(c.kids[2])
+            if a is not None and a.k == "DeclRefExpr":
+                msgvar = a.n
     # which branch of the child-kind test are we in
-    kind_if = None
-    for n in fn.walk():
-        if n.k == "IfStmt" and len(n.kids) > 2 and "Py_TYPE" in text(n.kids[0]) and \
-                "data[0]" in text(n.kids[0]) and n.mo != "CHECK":
-            kind_if = n
+    kind_if = parent_list = None
+    for blk in fn.walk():
+        if blk.k != "CompoundStmt":
+            continue
+        for n in blk.kids:
+            if n.k == "IfStmt" and "Py_TYPE" in text(n.kids[0]) and "data[0]" in text(n.kids[0]) and n.mo != "CHECK":
+                kind_if, parent_list = n, blk
     if kind_if is None:
         raise AnalysisError("anchor vanished: child-kind test in BTree_check_inner")
     neg = text(kind_if.kids[0]).replace(" ", "").startswith("!") or "!=" in text(kind_if.kids[0])
-    tree_br, leaf_br = (kind_if.kids[2], kind_if.kids[1]) if neg else (kind_if.kids[1], kind_if.kids[2])
-    tree_nodes = set(id(x) for x in tree_br.walk())
-    leaf_nodes = set(id(x) for x in leaf_br.walk())
-    bodies = [(fn, None)]
-    # helpers called from the checker (not the recursion itself) are part of it;
-    # a helper called from one branch of the child-kind test inherits its scope
+    then_nodes = set(id(x) for x in kind_if.kids[1].walk())
+    if len(kind_if.kids) > 2 and kind_if.kids[2].k != "Absent":
+        else_nodes = set(id(x) for x in kind_if.kids[2].walk())
+    elif _exits(kind_if.kids[1]):
+        # guard-clause form: what follows the `if` is its other branch
+        rest = parent_list.kids[parent_list.kids.index(kind_if) + 1:]
+        else_nodes = set(id(x) for st in rest for x in st.walk())
+    else:
+        raise AnalysisError("anchor vanished: the child-kind test of BTree_check_inner has one branch only")
+    tree_nodes, leaf_nodes = (else_nodes, then_nodes) if neg else (then_nodes, else_nodes)
+
+    def flags_of(f2):
+        """single-definition int locals defined by a comparison"""
+        defs = {}
+        for x in f2.walk():
+            nm = rhs = None
+            if x.k == "VarDecl" and x.kids and x.kids[-1].k != "Absent":
+                nm, rhs = x.n, x.kids[-1]
+            elif x.k == "BinaryOperator" and x.v == "=":
+                l0 = strip(x.kids[0])
+                if l0 is not None and l0.k == "DeclRefExpr":
+                    nm, rhs = l0.n, x.kids[1]
+            if nm:
+                defs.setdefault(nm, []).append(rhs)
+        out = {}
+        for nm, rs in defs.items():
+            r0 = strip(rs[0])
+            if len(rs) == 1 and r0 is not None and r0.k == "BinaryOperator" and r0.v in _NEG:
+                out[nm] = r0
+        return out
+    # definitions of the variable handed to the recursion (the successor leaf):
+    # (line, canonical value, inside a loop)
+    rec0 = [c for c in fn.walk() if c.k == "CallExpr" and callee(c) == ("fn", "BTree_check_inner")]
+    succvar = path(rec0[0].kids[2]) if rec0 and len(rec0[0].kids) > 2 else None
+    in_loop = set()
+    for lp in fn.walk():
+        if lp.k in ("ForStmt", "WhileStmt") or (lp.k == "DoStmt" and not lp.mo):
+            in_loop |= set(id(x) for x in lp.walk())
+
+    def arms(e):
+        e0 = strip(e)
+        if e0 is not None and e0.k == "ConditionalOperator":
+            return arms(e0.kids[1]) + arms(e0.kids[2])
+        return [e]
+    single = {}
+    for x in fn.walk():
+        if x.k == "BinaryOperator" and x.v == "=" and strip(x.kids[0]) is not None and strip(x.kids[0]).k == "DeclRefExpr":
+            single.setdefault(strip(x.kids[0]).n, []).append(x.kids[1])
+        elif x.k == "VarDecl" and x.kids and x.kids[-1].k != "Absent":
+            single.setdefault(x.n, []).append(x.kids[-1])
+    inline = {nm: re.sub(r"^\([A-Za-z_ ]+\*\)", "", text(rs[0]).replace(" ", ""))
+              for nm, rs in single.items() if len(rs) == 1 and nm != succvar}
+
+    def canon(e, sub=None):
+        t = text(e).replace(" ", "")
+        for nm, rep in list(inline.items()) + list((sub or {}).items()):
+            t = re.sub(r"(?<![\w>.])%s\b" % re.escape(nm), rep, t)
+        t = re.sub(r"\((?:Bucket|BTree|Sized)\*\)", "", t)
+        t = t.replace("self->data[(i+1)]", "data[i+1]").replace("self->data[i+1]", "data[i+1]")
+        return t
+    succ_defs_at = []
+    if succvar:
+        for x in fn.walk():
+            if x.k == "BinaryOperator" and x.v == "=" and path(x.kids[0]) == succvar:
+                for a in arms(x.kids[1]):
+                    succ_defs_at.append((x.l, canon(a), id(x) in in_loop))
+            elif x.k == "CallExpr" and callee(x)[0] == "fn" and callee(x)[1] in tu.funcs and \
+                    callee(x)[1] != "BTree_check_inner":
+                # a helper that stores through an out-parameter bound to &succvar
+                h = callee(x)[1]
+                params = [p_.n for p_ in tu.params(h)]
+                sub = {}
+                outp = None
+                for pn, a in zip(params, x.kids[1:]):
+                    a0 = strip(a)
+                    if a0 is not None and a0.k == "UnaryOperator" and a0.v == "&" and path(a0.kids[0]) == succvar:
+                        outp = pn
+                    else:
+                        sub[pn] = canon(a)
+                if outp:
+                    for y in tu.funcs[h].walk():
+                        if y.k == "BinaryOperator" and y.v == "=":
+                            l0 = strip(y.kids[0])
+                            if l0 is not None and l0.k == "UnaryOperator" and l0.v == "*" and path(l0.kids[0]) == outp:
+                                t = text(y.kids[1]).replace(" ", "")
+                                for nm, rep in sub.items():
+                                    t = re.sub(r"(?<![\w>.])%s\b" % re.escape(nm), rep, t)
+                                succ_defs_at.append((x.l, re.sub(r"\((?:Bucket|BTree|Sized)\*\)", "", t),
+                                                     id(x) in in_loop))
+    atoms = []
+    atoms_pre = []
+    bodies = [(fn, None, {})]
     seen = set(["BTree_check_inner"])
     for c in fn.walk():
-        if c.k == "CallExpr" and callee(c)[0] == "fn" and callee(c)[1] in tu.funcs and \
-                callee(c)[1] not in seen and any(
-                    x.k == "IfStmt" and x.mo == "CHECK" for x in tu.funcs[callee(c)[1]].walk()):
+        if c.k == "CallExpr" and callee(c)[0] == "fn" and callee(c)[1] in tu.funcs and callee(c)[1] not in seen:
+            h = tu.funcs[callee(c)[1]]
+            has_check = any(x.k == "IfStmt" and x.mo == "CHECK" for x in h.walk())
+            returns_msg = any(x.k == "ReturnStmt" and x.kids and strip(x.kids[0]) is not None and
+                              strip(x.kids[0]).k == "StringLiteral" for x in h.walk())
+            if not (has_check or returns_msg):
+                continue
             seen.add(callee(c)[1])
+            if returns_msg:
+                # the message must be stored into the reported variable and lead out
+                # of the checker whenever it is there - under no further condition
+                okflow = False
+                for blk in fn.walk():
+                    if blk.k != "CompoundStmt":
+                        continue
+                    for idx, st in enumerate(blk.kids):
+                        s0 = strip(st)
+                        if s0 is not None and s0.k == "BinaryOperator" and s0.v == "=" and msgvar and \
+                                path(s0.kids[0]) == msgvar and strip(s0.kids[1]) is c:
+                            for later in blk.kids[idx + 1:]:
+                                if any(x.k == "BinaryOperator" and x.v == "=" and path(x.kids[0]) == msgvar
+                                       for x in later.walk()) and later.k != "IfStmt":
+                                    break
+                                if later.k == "IfStmt" and msgvar in text(later.kids[0]):
+                                    ct = _ctext(later.kids[0], {})
+                                    if ct in ("(%s!=(void*)0)" % msgvar, msgvar, "(%s!=0)" % msgvar) and \
+                                            _exits(later.kids[1]):
+                                        okflow = True
+                                    else:
+                                        atoms_pre.append(("WEAKENED:the message of %s leaves the checker only when %s"
+                                                          % (callee(c)[1], ct[:60]), later.l))
+                                        okflow = None
+                                    break
+                if okflow is False:
+                    atoms_pre.append(("other:the message returned by %s is not reported" % callee(c)[1], c.l))
             scope = "tree" if id(c) in tree_nodes else "leaf" if id(c) in leaf_nodes else None
-            bodies.append((tu.funcs[callee(c)[1]], scope))
-    for f2, forced in bodies:
+            sub = {}
+            for pd, a in zip(tu.params(callee(c)[1]), c.kids[1:]):
+                at = text(a).replace(" ", "")
+                if pd.n != at:
+                    sub[pd.n] = at
+            bodies.append((h, scope, sub))
+    for f2, forced, sub in bodies:
+        sub = dict(sub)
+        sub.update(flags_of(f2))
         for n in f2.walk():
-            if n.k == "IfStmt" and n.mo == "CHECK":
+            if n.k != "IfStmt":
+                continue
+            asserted = None
+            sub_here = sub
+            if f2 is fn and succvar and id(n) not in in_loop:
+                # outside the loops the successor variable stands for its latest definition
+                before = [d for d in succ_defs_at if d[0] <= n.l and not d[2]]
+                if before:
+                    sub_here = dict(sub)
+                    sub_here[succvar] = max(before)[1]
+            if n.mo == "CHECK":
                 c = strip(n.kids[0])
-                if c.k == "UnaryOperator" and c.v == "!":
-                    c = strip(c.kids[0])
-                in_tree = (forced == "tree") or (forced is None and id(n) in tree_nodes)
-                in_leaf = (forced == "leaf") or (forced is None and id(n) in leaf_nodes)
-                atoms.append((_c_atom(c, in_tree, in_leaf), n.l))
-    # recursion with the successor and the successor definitions
-    rec = []
-    succ_defs = set()
-    for f2, _ in bodies:
-        rec += [c for c in f2.walk() if c.k == "CallExpr" and callee(c) == ("fn", "BTree_check_inner")]
-        succ_defs |= set(text(a.kids[1]).replace(" ", "") for a in f2.walk()
-                         if a.k == "BinaryOperator" and a.v == "=" and path(a.kids[0]) == "bucketafter")
-    succ_defs = sorted(succ_defs)
-    if rec and path(rec[0].kids[2]) == "bucketafter" and \
-            succ_defs == sorted(["(Bucket*)self->data[(i+1)].child", "child2->firstbucket", "nextbucket"]):
+                asserted = _ctext(c, sub_here, neg=True)
+            else:
+                br = n.kids[1]
+                while br.k == "CompoundStmt" and len(br.kids) == 1:
+                    br = br.kids[0]
+                first = br.kids[0] if br.k == "CompoundStmt" and br.kids else br
+                f0 = strip(first)
+                is_msg_store = f0 is not None and f0.k == "BinaryOperator" and f0.v == "=" and msgvar and \
+                    path(f0.kids[0]) == msgvar and strip(f0.kids[1]) is not None and strip(f0.kids[1]).k == "StringLiteral"
+                is_msg_return = first.k == "ReturnStmt" and first.kids and strip(first.kids[0]) is not None and \
+                    strip(first.kids[0]).k == "StringLiteral" and f2 is not fn
+                if is_msg_store or is_msg_return:
+                    asserted = _ctext(n.kids[0], sub, neg=True)
+            if asserted is None:
+                continue
+            in_tree = (forced == "tree") or (forced is None and id(n) in tree_nodes)
+            in_leaf = (forced == "leaf") or (forced is None and id(n) in leaf_nodes)
+            atoms.append((_c_atom_text(asserted, in_tree, in_leaf), n.l))
+    atoms.extend(atoms_pre)
+    # recursion with the successor: the values that can reach, inside the
+    # loops, the variable handed to the recursion / compared with a leaf's link
+    rec = rec0
+    succ = set(d[1] for d in succ_defs_at if d[2])
+    succ_defs = sorted(succ)
+    if rec and succvar and succ_defs == sorted(["data[i+1].child", "data[i+1].child->firstbucket", "nextbucket"]):
         atoms.append(("recurse-with-successor", rec[0].l))
     else:
         atoms.append(("other:successor %s" % succ_defs, fn.l))
